@@ -289,6 +289,45 @@ def run(ctx, build):
     check_shell(ctx)
 
 
+def autodetect_scenario(ctx, S, w):
+    """`image:/path` (no partition number) means the first partition that HOLDS a FAT file system: a partition that merely
+    has a FAT type code (unformatted), or a Linux partition, in front of it is skipped"""
+    import tempfile, shutil, hashlib
+    for first in ('unformatted-fat-typed', 'linux-typed'):
+        T = tempfile.mkdtemp(prefix='c19a-')
+        try:
+            os.mkdir(os.path.join(T, 'host'))
+            image = os.path.join(T, 'disk.img')
+            layout = S.build_image(image, [['fat16', 40, 1], [ctx.rng.choice(['fat12', 'fat16', 'fat32']), 300, 1]])
+            with open(image, 'r+b') as f:
+                f.seek(layout[0][0]); f.write(bytes(layout[0][1]))          # partition 1: no file system at all
+                if first == 'linux-typed':
+                    f.seek(446 + 4); f.write(b'\x83')
+            data = bytes(ctx.rng.getrandbits(8) for _ in range(3000))
+            with open(os.path.join(T, 'host', 'f.bin'), 'wb') as f:
+                f.write(data)
+            H, I = os.path.join(T, 'host'), image + ':'
+            script = [['cp', H + '/f.bin', I + '/f.bin'], ['mkdir', '-p', I + '/d/e'], ['cat', '-o', I + '/d/twice.bin', H + '/f.bin', I + '/f.bin'],
+                      ['mv', I + '/f.bin', I + '/d/e/g.bin'], ['cp', '-r', I + '/d', H + '/out'], ['rm', '-r', I + '/d/e']]
+            for argv in script:
+                r = w.call({'op': 'sh', 'argv': argv})
+                ctx.case(('autodetect', first, argv[0]), True, 'sh-autodetect')
+                if r['rc'] != 0:
+                    ctx.violation('sh/autodetect/failed', f'disk whose partition 1 is {first} and partition 2 holds the FAT file system: '
+                                  f'`{" ".join(a.replace(T + "/", "") for a in argv)}` failed: {r["err"].strip()[-160:]}', dict(first=first, argv=argv[:1]))
+                    return
+            res = w.call({'op': 'walk', 'image': image, 'parts': [2]})['2']
+            want = {'d': ['d'], 'd/twice.bin': ['f', 6000, hashlib.sha1(data + data).hexdigest(), 6000]}
+            got = {k: v for k, v in res.get('tree', {}).items()}
+            host_out = os.path.join(H, 'out', 'e', 'g.bin')
+            if 'error' in res or got != want or not os.path.exists(host_out) or open(host_out, 'rb').read() != data:
+                ctx.violation('sh/autodetect/tree', f'partition 1 {first}: after the script partition 2 holds {str(got)[:200]} (expected {want}), '
+                              f'copied-out file ok: {os.path.exists(host_out)}', dict(first=first))
+                return
+        finally:
+            shutil.rmtree(T, ignore_errors=True)
+
+
 def check_shell(ctx):
     from props import c19_shell as S
     rng = ctx.rng
@@ -296,6 +335,9 @@ def check_shell(ctx):
     found = {}
     S.STATS.clear()
     try:
+        autodetect_scenario(ctx, S, w)
+        if ctx.violations:
+            return
         seqs = []
         sizes = S.SIZES if ctx.thorough else [0, 1, 65535, 65536, 65537, 131073]
         for size in sizes:
